@@ -160,8 +160,12 @@ func runC09Default(r *Run) {
 				if t.Chance(30, "own-deadline") {
 					actx, cancel = context.WithTimeout(bg, []time.Duration{ms, 20 * ms, time.Second}[t.Intn(3, "own-timeout")])
 				} else {
-					actx, cancel = context.WithCancel(bg)
+					actx, cancel = context.WithTimeout(bg, time.Hour) // cancelled by the caller long before that
 				}
+			}
+			if wrap != "" && cancel == nil {
+				// never needed on a limiter with room; bounds the call if a wrapper should block
+				actx, cancel = context.WithTimeout(bg, time.Hour)
 			}
 			l, ok := front.Acquire(actx)
 			if !ok {
